@@ -90,6 +90,9 @@ def cases(draw):
             st_, bound = "from . import %s" % sib, sib
         elif form == "rel2":
             lvl = draw(st.integers(2, 3))
+            deep = [f for f in pyfiles if f.count("/") >= lvl + 1]     # importers whose level-lvl parent is still a package
+            if deep and draw(st.integers(0, 3)) > 0:
+                importer = draw(st.sampled_from(deep))
             if draw(st.booleans()):
                 st_, bound = "from %s import %s" % ("." * lvl, sib), sib
             else:
